@@ -222,6 +222,9 @@ def make_contractions(basis_dict, atoms, coords, coord_types):
                 f"got {coord_types}"
             )
         coord_types = [coord_types] * num_coord_types
+    else:
+        # work on a copy so that the caller's list/tuple is left untouched
+        coord_types = list(coord_types)
 
     if len(coord_types) != num_coord_types:
         raise ValueError(
